@@ -384,6 +384,9 @@ func c19Cases(c *Ctx) []c19Case {
 			}
 		}
 	}
+	for i := range out {
+		out[i].Kind = kindNames[i%5] // every kind is sampled evenly
+	}
 	// long patterns: nil runs of 50 and more with a scan limit above the default of 50, in every placement
 	for _, long := range []string{"1,50x0,1,45x0", "51x0,1", "1,55x0,1", "1,49x0,1,2x0,1", "2x1,52x0,3x1,1x0"} {
 		for _, lim := range []int{0, 60, 100} {
